@@ -185,6 +185,11 @@ func execCB(line string) h.Result {
 				oldw := 0
 				if got := sh.wideFil[k]; got {
 					oldw = 1
+					if runewidth.RuneWidth(rune(old.main)) == 0 {
+						// a zero-width rune covers no column: nothing is forced dirty by replacing it (the repaired Fill
+						// records width 0 for it; the pinned Fill records 1 and forces, which the property does not ask for)
+						oldw = 0
+					}
 				} else {
 					oldw = runewidth.RuneWidth(rune(old.main))
 				}
